@@ -83,6 +83,12 @@ Section ctl_steps.
         destruct (i_fetch _ _ _ Hinv _ _ Hin) as (_ & _ & _ & _ & Hnp). apply Hnp. rewrite Hpay. by left.
       + rewrite lookup_insert_ne in Ho by done. destruct (i_out _ _ _ Hinv _ _ Ho) as (? & ? & ? & ? & ?).
         repeat split; auto.
+    - apply (i_phase _ _ _ Hinv).
+    - intros t d Ht Hd. destruct (i_fin_ev _ _ _ Hinv _ _ Ht Hd) as [?|Hp]; [by left|right]. by rewrite Hpub in Hp.
+    - apply (i_seen_ext _ _ _ Hinv).
+    - intros d Hd. destruct (decide (d = d0)) as [->|Hne]; [right; right; by rewrite lookup_insert|].
+      rewrite lookup_insert_ne by done. destruct (i_fetched _ _ _ Hinv _ Hd) as [?|[Hp|?]]; [by left| |by right; right].
+      right. left. rewrite Hpay in Hp. apply elem_of_cons in Hp as [?|?]; done.
   Qed.
 
   (* ---------------------------------------------------------------- publication *)
@@ -119,12 +125,14 @@ Section ctl_steps.
     (∀ e, e ∈ ps → e ∈ pool s) →
     (∀ w t, EPub w (last_out J t) ∈ pool s → EPub w (last_out J t) ∈ ps) →
     NoDup (pub_ds ps) → NoDup (pay_ds ps) →
+    (∀ d, d ∈ pub_ds (pool s) → d ∈ pub_ds ps ∨ d = d0) →
+    (∀ d, d ∈ pay_ds (pool s) → d ∈ pay_ds ps) →
     d0.1 ∈ finished s → (d0 ∉ purged (ctl s) → (h0, d0) ∈ store s) →
     Inv J E {| ctl := publish_c J (ctl s) h0 d0; store := store s; wq := wq s; xfers := xfers s;
                fetches := fetches s; purges := purges s; pool := ps; dispatched := dispatched s;
                finished := finished s |}.
   Proof.
-    intros Hinv Hsub Hlast Hnd1 Hnd2 Hfin0 Hst0.
+    intros Hinv Hsub Hlast Hnd1 Hnd2 Hpubk Hpayk Hfin0 Hst0.
     destruct (publish_fields (ctl s) h0 d0) as (Ec & Ei & Eo & Ed & Ept & Epq & Efq & Efe & Eou & Ese & Eco & Epu).
     assert (Eong : ∀ w, ong (publish_c J (ctl s) h0 d0) w = ong (ctl s) w) by (intros w; unfold ong; by rewrite Eo).
     assert (Eptr : ∀ d, ptr (publish_c J (ctl s) h0 d0) d = ptr (ctl s) d) by (intros d; unfold ptr; by rewrite Ept).
@@ -207,6 +215,33 @@ Section ctl_steps.
     - intros d v Hin. by apply (i_pay _ _ _ Hinv), Hsub.
     - done.
     - intros d v Ho. destruct (i_out _ _ _ Hinv _ _ Ho) as (? & ? & ? & ? & ?). repeat split; auto.
+    - (* i_phase *) intros t Ht Hc. destruct (i_phase _ _ _ Hinv _ Ht Hc) as [?|[[X HX]|[w Hw]]].
+      + left. apply elem_of_union. by left.
+      + rewrite map_lookup_imap, HX. simpl. fold (ptr (ctl s) d0).
+        destruct (i_tr _ _ _ Hinv _ _ HX) as (_ & _ & _ & _ & Hne & _).
+        case_bool_decide as Hin; [|right; left; eauto]. case_bool_decide as Hemp; [|right; left; eauto].
+        left. apply elem_of_union. right. apply elem_of_filter. split; [|done].
+        unfold becomes_computable. rewrite HX. apply bool_decide_eq_true.
+        apply set_eq. intros x. rewrite elem_of_singleton. split.
+        * intros Hx. destruct (decide (x = d0)) as [?|Hnx]; [done|]. exfalso. clear -Hx Hemp Hnx. set_solver.
+        * intros ->. destruct (decide (d0 ∈ X)) as [?|Hnd]; [done|]. exfalso. apply Hne. clear -Hemp Hnd. set_solver.
+      + right. right. exists w. by rewrite Eong.
+    - (* i_fin_ev *) intros t d Ht Hd. destruct (i_fin_ev _ _ _ Hinv _ _ Ht Hd) as [?|Hp]; [left; set_solver|].
+      destruct (Hpubk _ Hp) as [?|Heq]; [by right|left; subst; set_solver].
+    - (* i_seen_ext *) intros d Hd He. unfold consider_fetch.
+      match goal with |- context [if ?b then _ else _] => destruct b eqn:Hcond end.
+      + destruct (decide (d = d0)) as [->|Hne]; [right; by rewrite lookup_insert|]. rewrite lookup_insert_ne by done.
+        apply (i_seen_ext _ _ _ Hinv); [set_solver|done].
+      + apply elem_of_union in Hd as [Hd|Hd]; [|by apply (i_seen_ext _ _ _ Hinv)].
+        apply elem_of_singleton in Hd as ->.
+        apply andb_false_iff in Hcond as [Hcond|Hcond]; [apply andb_false_iff in Hcond as [Hcond|Hcond]; [apply andb_false_iff in Hcond as [Hcond|Hcond]|]|].
+        * apply bool_decide_eq_false in Hcond. done.
+        * apply negb_false_iff in Hcond. unfold has_value in Hcond. left.
+          match type of Hcond with context [match ?x with _ => _ end] => destruct x as [[v|]|] eqn:Ho end; try discriminate Hcond.
+          by destruct (i_out _ _ _ Hinv _ _ Ho) as (_ & ? & _).
+        * apply bool_decide_eq_false in Hcond. right. by apply not_eq_None_Some.
+        * apply bool_decide_eq_false in Hcond. left. destruct (decide (d0 ∈ fetched (ctl s))); [done|]. exfalso. by apply Hcond.
+    - (* i_fetched *) intros d Hd. destruct (i_fetched _ _ _ Hinv _ Hd) as [?|[?|?]]; [by left|right; left; by apply Hpayk|by right; right].
   Qed.
 
   (* ---------------------------------------------------------------- completion *)
@@ -215,11 +250,12 @@ Section ctl_steps.
 
   Lemma inv_complete s w0 t0 c2 ps :
     Inv J E s → list_remove (EPub w0 (last_out J t0)) (pool s) = Some ps →
+    last_out J t0 ∈ seen (ctl s) →
     complete_c J (ctl s) w0 t0 = Next c2 →
     Inv J E {| ctl := c2; store := store s; wq := wq s; xfers := xfers s; fetches := fetches s;
                purges := purges s; pool := ps; dispatched := dispatched s; finished := finished s |}.
   Proof.
-    intros Hinv Hrm Hc.
+    intros Hinv Hrm Hseenlast Hc.
     pose proof (list_remove_in _ _ _ Hrm) as Hx.
     destruct (i_pub _ _ _ Hinv _ _ Hx) as (Hfin0 & _ & Htask0 & Hong0 & h0 & Hh0 & _). simpl in Hfin0, Htask0, Hong0.
     specialize (Hong0 eq_refl).
@@ -331,6 +367,15 @@ Section ctl_steps.
     - pose proof (i_pay_nodup _ _ _ Hinv) as H. by rewrite Hpay in H.
     - intros d v Ho. destruct (i_out _ _ _ Hinv _ _ Ho) as (? & ? & ? & Hnp & ?). repeat split; auto.
       intros Hin. apply Hnp. rewrite Hpay. done.
+    - (* i_phase *) intros t Ht Hnc. assert (t ≠ t0 ∧ t ∉ completed (ctl s)) as [Hne Hnc'] by set_solver.
+      destruct (i_phase _ _ _ Hinv _ Ht Hnc') as [?|[?|[w Hw]]]; [by left|right; by left|].
+      right. right. exists w. rewrite Eong. destruct (decide (w0 = w)) as [<-|?]; [|done].
+      unfold ong in Hw. rewrite HX0 in Hw. simpl in Hw. set_solver.
+    - (* i_fin_ev *) intros t d Ht Hd. destruct (i_fin_ev _ _ _ Hinv _ _ Ht Hd) as [?|Hp]; [by left|].
+      rewrite Hpub in Hp. apply elem_of_cons in Hp as [->|?]; [by left|by right].
+    - apply (i_seen_ext _ _ _ Hinv).
+    - intros d Hd. destruct (i_fetched _ _ _ Hinv _ Hd) as [?|[Hp|?]]; [by left| |by right; right].
+      right. left. by rewrite Hpay in Hp.
   Qed.
 
   (* ---------------------------------------------------------------- assign + act + plan *)
@@ -474,6 +519,14 @@ Section ctl_steps.
     - apply (i_pay _ _ _ Hinv).
     - apply (i_pay_nodup _ _ _ Hinv).
     - apply (i_out _ _ _ Hinv).
+    - (* i_phase *) intros t' Ht' Hnc'. destruct (decide (t' = t)) as [->|Hne].
+      + right. right. exists w. rewrite Eong, decide_True by done. set_solver.
+      + destruct (i_phase _ _ _ Hinv _ Ht' Hnc') as [?|[?|[w' Hw']]]; [left; set_solver|right; by left|].
+        right. right. exists w'. rewrite Eong. destruct (decide (w = w')) as [<-|?]; [|done].
+        unfold ong in Hong0. unfold ong in Hw'. rewrite Hong0 in Hw'. set_solver.
+    - apply (i_fin_ev _ _ _ Hinv).
+    - apply (i_seen_ext _ _ _ Hinv).
+    - apply (i_fetched _ _ _ Hinv).
   Qed.
 
   (* ---------------------------------------------------------------- flush_queues *)
@@ -551,5 +604,13 @@ Section ctl_steps.
       rewrite fmap_app. intros Hin. apply elem_of_app in Hin as [?|Hin]; [done|].
       apply elem_of_list_fmap in Hin as ([d2 s2] & -> & Hin). apply elem_of_map_to_list in Hin. simpl in Ho.
       destruct (i_fq _ _ _ Hinv _ _ Hin) as (_ & Ho' & _). congruence.
+    - apply (i_phase _ _ _ Hinv).
+    - apply (i_fin_ev _ _ _ Hinv).
+    - intros d Hd He. left. destruct (i_seen_ext _ _ _ Hinv _ Hd He) as [?|Hq]; [set_solver|].
+      apply elem_of_union. right. by apply elem_of_dom.
+    - intros d Hd. rewrite fmap_app. apply elem_of_union in Hd as [Hd|Hd].
+      + destruct (i_fetched _ _ _ Hinv _ Hd) as [?|[?|?]]; [left; apply elem_of_app; by left|right; by left|by right; right].
+      + left. apply elem_of_app. right. apply elem_of_dom in Hd as [h Hh]. apply elem_of_list_fmap. exists (d, h).
+        split; [done|]. by apply elem_of_map_to_list.
   Qed.
 End ctl_steps.
